@@ -58,8 +58,11 @@ def gen_cases(rng, tier):
             for (pos, w, kind) in picks:
                 cur = U.unle(bs[pos:pos + w])
                 vals = set(x for x in VALS if x < 256 ** w) | {(cur + 1) % 256 ** w, (cur - 1) % 256 ** w, 256 ** w - 1}
+                if w == 8 and kind == "len":
+                    # counts whose product with the item size wraps modulo 2^64 to something small
+                    vals |= {2 ** 64 // sz + k for sz in (2, 4, 8, 16) for k in (0, 1, 2)}
                 if j >= 1:
-                    vals = [rng.choice(sorted(vals))]
+                    vals = [rng.choice(sorted(vals))] + ([2 ** 64 // 4 + rng.below(3)] if (w == 8 and kind == "len") else [])
                 for x in sorted(vals):
                     if x == cur:
                         continue
@@ -259,6 +262,31 @@ def _strings_valid(idx, t, v, tpath=()):
     return True
 
 
+def _counts_match(t, v, bs, pos=0):
+    """walk a converted value along the input: every List holds exactly as many items as its length prefix announces.
+    returns (ok, position after the node) - (True, None) where the walk cannot continue (lists of unsized elements, enums)"""
+    k = t[0]
+    if k == "F":
+        return True, pos + U.fsize(t[1])
+    if k == "L":
+        lw = t[2]
+        if pos + lw > len(bs):
+            return False, None
+        n = U.unle(bs[pos:pos + lw])
+        if len(v[1]) != n:
+            return False, None
+        return True, pos + lw + n * U.fsize(t[1])
+    if k == "R":
+        return True, len(bs)
+    if k == "S":
+        for ft, fv in zip(t[1], v[1]):
+            ok, pos = _counts_match(ft, fv, bs, pos)
+            if not ok or pos is None:
+                return ok, None
+        return True, pos
+    return True, None
+
+
 def predicate(c, obs):
     if obs is None or (obs and obs[0] == "UNPARSEABLE"):
         return "no observation"
@@ -274,6 +302,8 @@ def predicate(c, obs):
             return "the owned conversion produced a field with an invalid bit pattern"
         if not _strings_valid(idx, ty, v):
             return "the owned conversion produced a String that is not valid UTF-8"
+        if idx not in NOT_COMPARED and not _counts_match(ty, v, bs)[0]:
+            return "the owned conversion produced a List whose item count is not the count its length prefix announces"
     # keyed containers at the top level (their owned conversion is not compared with the model: BTreeMap / BTreeSet order):
     # an input whose item list is structurally readable and holds an item with a forbidden bit pattern must not convert
     # (the Rust value would silently be normalised, so the check reads the INPUT bytes)
